@@ -4,7 +4,7 @@
 Require Import ZArith List Lia Bool.
 Require Import AV.Foam.Buf AV.Foam.Syntax AV.Foam.Codec AV.Foam.CodecFacts AV.Foam.CodecFacts2
                AV.Foam.CodecFacts3 AV.Foam.CodecFacts4 AV.Foam.SExpr AV.Foam.SExprFacts AV.Foam.SExprFacts2
-               AV.Foam.SLex AV.Foam.Archive AV.Foam.ArchiveFacts AV.Foam.ArchiveFacts2 AV.Foam.LibHdr AV.Foam.LibHdrFacts AV.Foam.LibHdrFacts2
+               AV.Foam.SLex AV.Foam.Archive AV.Foam.ArchiveFacts AV.Foam.ArchiveFacts2 AV.Foam.LibSect AV.Foam.LibSectFacts AV.Foam.LibHdr AV.Foam.LibHdrFacts AV.Foam.LibHdrFacts2
                AV.Gen.FoamInfo.
 Import ListNotations.
 Local Open Scope Z_scope.
@@ -163,3 +163,14 @@ Definition ar_intact_found_current := ar_intact_found.
 Definition ar_truncation_refused_current := ar_truncation_refused.
 Definition ar_boundary_cut_accepted_current := ar_boundary_cut_accepted.
 Definition ar_members_inside_current := read_ar_members_inside.
+
+(* ---- contents of the LIB_Id and LIB_Name sections *)
+Definition ex_names : list bytes := [[70; 111; 111]; [102]; [70; 111; 111]; [103]; [102]].     (* Foo f Foo g f *)
+Example ex_names_raw :
+  names_to_raw 2 ex_names = mkNames 5 2 [(2, 0); (4, 1)] [[70; 111; 111]; [102]; [103]].
+Proof. vm_compute. reflexivity. Qed.
+Example ex_names_bytes :
+  enc_names (names_to_raw 2 ex_names) = [5; 0; 2; 0; 2; 0; 0; 0; 4; 0; 1; 0; 5; 0; 70; 111; 111; 0; 102; 0; 103; 0].
+Proof. vm_compute. reflexivity. Qed.
+Example ex_names_cstrings : Forall is_cstring ex_names.
+Proof. repeat constructor; lia. Qed.
